@@ -23,7 +23,6 @@ func init() {
 		ID:       "C15",
 		Title:    "Assets are conserved and balances never go negative",
 		Packages: []string{"account", "common/address", "types"},
-		Hold:     "rules R15a (six unchecked += on balances) and R15e (raw-string alias test in ExecTransfer/ExecTransferFrozen) fire; reproduction and fix in progress",
 		Explanation: "Decides R15a-R15e: every store to Account.Balance/Frozen in package account is either an increase produced by the overflow-checked safeAdd (error propagated) or a decrease dominated by a non-negativity test over the same field and amount; " +
 			"no operation can fail after its first save (error atomicity), the amount check precedes every change; every storage-key builder normalises the address through FormatAddrKey; " +
 			"an operation that loads two records selected by two address parameters rejects aliasing on the normalised identity (not on the raw spelling); rejection reasons are live.",
@@ -223,9 +222,21 @@ func init() {
 						}
 					}
 					if why, ok := atomicityExceptions[op]; ok && bad != "" {
-						r.Exception(label, why)
-						r.OK(label, r.W.Pos(f.Node().Pos()), "frozen exception: "+why)
-						continue
+						// the exception is only granted while the pre-check it relies on is present:
+						// safeAdd on the Frozen amount dominates the first composite save
+						pre := core.RunFlow(f, spec(errNil("frozen-overflow-prechecked", "account.safeAdd")))
+						granted := true
+						for _, sn := range saveNodes {
+							if !pre.In[sn].Has("frozen-overflow-prechecked") {
+								granted = false
+							}
+						}
+						if granted {
+							r.Exception(label, why)
+							r.OK(label, r.W.Pos(f.Node().Pos()), "frozen exception: "+why)
+							continue
+						}
+						bad += " (and the overflow pre-check that would make the second step infallible is missing)"
 					}
 					if bad == "" {
 						r.OK(label, r.W.Pos(saveNodes[0].Ast.Pos()), fmt.Sprintf("%d save site(s); no error return reachable after any of them", len(saveNodes)))
@@ -352,7 +363,7 @@ func init() {
 }
 
 var atomicityExceptions = map[string]string{
-	"ExecDepositFrozen": "the second step (execDepositFrozen) can only fail on addr==execaddr or CheckAmount, both already established by the first step's own checks on the same arguments",
+	"ExecDepositFrozen": "the second step (execDepositFrozen) can only fail on addr==execaddr, CheckAmount or Frozen overflow; the first two are established by the first step's own checks on the same arguments and the overflow is pre-checked (safeAdd) before the first save",
 }
 
 func isZeroLit(c *core.Ctx, e ast.Expr) bool {
